@@ -1197,6 +1197,30 @@ def H_provider(nthreads=2):
     return make, check, ("_date_time_zone_cache.py",)
 
 
+def H_provider_warm():
+    """a provider that has just served ANOTHER id (whatever 'most recent answer' it may remember is warm for that id): two threads
+    fetch one new id, a third question re-reads the first id afterwards"""
+    src = TzdbDateTimeZoneSource.default
+
+    def make():
+        cache = DateTimeZoneCache(src)
+        first = cache["Asia/Tokyo"]
+        return [lambda: cache["Europe/London"], lambda: (cache.get_zone_or_none("Europe/London"), cache["Asia/Tokyo"])], {"cache": cache, "first": first}
+
+    def check(s, c):
+        if s.status != "OK":
+            return (s.status,), "execution does not complete: %s" % s.status
+        e = _outcome_errors(s)
+        if e is not None:
+            return ("error", type(e).__name__), "thread raised %r" % (e,)
+        a, (b, tk) = s.results[0], s.results[1]
+        later = c["cache"]["Europe/London"]
+        ok = (getattr(a, "id", None) == "Europe/London", getattr(b, "id", None) == "Europe/London", a is b, later is a, tk is c["first"], getattr(tk, "id", None) == "Asia/Tokyo")
+        return ok, (None if all(ok) else "after serving Asia/Tokyo, two threads fetching Europe/London got zones with ids %r / %r (same object: %s, later lookup same: %s; Tokyo re-read same object: %s)" % (
+            getattr(a, "id", None), getattr(b, "id", None), ok[2], ok[3], ok[4]))
+    return make, check, ("_date_time_zone_cache.py",)
+
+
 def H_calendar(prop, ordinal_name):
     reg = _calendar_registry()
     from pyoda_time._calendar_ordinal import _CalendarOrdinal
@@ -1603,6 +1627,7 @@ def _harness_table(tier):
     for zid in ("Europe/London", "Europe/Vienna"):
         hs.append(("H3-zonecache:%s" % zid, lambda zid=zid: H_zonecache(zid)))
     hs.append(("H4-provider", H_provider))
+    hs.append(("H4-provider-warm-other-id", H_provider_warm))
     if tier != "quick":
         hs.append(("H4-provider-3threads", lambda: H_provider(3)))
     hs.append(("H5-calendar:coptic", lambda: H_calendar("coptic", "COPTIC")))
@@ -1864,9 +1889,9 @@ def run(ctx):
     mark("schedules")
     # first use of lazily initialised state, each execution in a fresh interpreter (0.6 s each): single-preemption space
     small = ["offset-patterns", "instant-repr", "iso-patterns", "calendar-hebrew"]
-    fu = [(n, "line", 1, 60) for n in small[:2]] + [("date-adjusters", "line", 2, 120)]
+    fu = [(n, "line", 1, 60) for n in small[:2]] + [("date-adjusters", "line", 2, 120), ("time-unit-arithmetic", "line", 2, 120), ("stdlib-bridges", "line", 2, 120)]
     if tier != "quick":
-        fu = [(n, "line", 1, 2500) for n in small + ["calendar-islamic", "weekyear-rules", "tzdb-provider", "fixed-zones"]] + [("date-adjusters", "line", 2, 2500)]
+        fu = [(n, "line", 1, 2500) for n in small + ["calendar-islamic", "weekyear-rules", "tzdb-provider", "fixed-zones"]] + [("date-adjusters", "line", 2, 2500), ("time-unit-arithmetic", "line", 2, 2500), ("stdlib-bridges", "line", 2, 2500)]
     for acc in pmap(_first_use_shard, fu, procs=4):
         ctx.merge_part("first_use_fresh_interpreter", acc)
     mark("first_use")
